@@ -162,7 +162,19 @@ static bool representable(long double v, int f) {
 }
 
 // a store menu entry: concrete points per variable, all representable in the value format `vf`
-struct StoreSpec { std::string name; int vfmt; std::vector<long double> p0, p1; };
+// asym != 0: the abstract store is the box x0 = [-6.5,1], x1 = [0,16] (asym 1) resp. the linear-form store
+// x1 -> [-6.5,1]*x0 + [-1,1], x0 = [0,16] (asym 2); `pairs` then lists the concrete stores explicitly
+struct StoreSpec { std::string name; int vfmt; std::vector<long double> p0, p1; int asym; std::vector<std::pair<long double, long double> > pairs; StoreSpec() : vfmt(0), asym(0) {} };
+static long double ld_next(long double v, int f, bool up) {
+  if (f == F_SINGLE) return (long double)nextafterf((float)v, up ? HUGE_VALF : -HUGE_VALF);
+  if (f == F_DOUBLE) return (long double)nextafter((double)v, up ? HUGE_VAL : -HUGE_VAL);
+  return nextafterl(v, up ? HUGE_VALL : -HUGE_VALL);
+}
+static long double ld_round(long double v, int f) {   // some value of format f next to v
+  if (f == F_SINGLE) { volatile float t = (float)v; return t; }
+  if (f == F_DOUBLE) { volatile double t = (double)v; return t; }
+  return v;
+}
 static void keep_repr(std::vector<long double>& p, int f) {
   std::vector<long double> o; for (size_t k = 0; k < p.size(); ++k) if (finite_ld(p[k]) && representable(p[k], f)) o.push_back(p[k]);
   std::sort(o.begin(), o.end()); o.erase(std::unique(o.begin(), o.end()), o.end()); p = o;
@@ -189,7 +201,28 @@ static std::vector<StoreSpec> make_stores(int v, int s, bool thorough) {
       long double a2[] = { -2, -cv.eps, 0, 1 + third, 3 }; u.p0.assign(a2, a2 + 5);
       long double b2[] = { cv.maxv / 4, cv.maxv / 2 }; u.p1.assign(b2, b2 + 2); out.push_back(u); }
   }
-  for (size_t k = 0; k < out.size(); ++k) { keep_repr(out[k].p0, v); keep_repr(out[k].p1, v); }
+  if (v == s) {
+    // asymmetric zero-straddling intervals (|lower| > upper), judged at the end points, their neighbours and at
+    // worst-case rounding companions (x0*x1 just beyond a power of two)
+    CF c = cf_of(v);
+    { StoreSpec t; t.name = tag + "x0 in [-6.5,1], x1 in [0,16] @edges"; t.vfmt = v; t.asym = 1;
+      long double a[] = { -6.5L, ld_next(-6.5L, v, true), -2.75L, -c.dmin, 0, c.dmin, ld_next(1, v, false), 1 }; t.p0.assign(a, a + 8);
+      long double b[] = { 0, c.dmin, 0.5L, 8, ld_next(16, v, false), 16 }; t.p1.assign(b, b + 6);
+      for (int k = 0; k <= 4; ++k) { long double y = ld_round(ldexpl(1, k) / 6.5L, v); long double cand[3] = { y, ld_next(y, v, true), ld_next(y, v, false) };
+        for (int j = 0; j < 3; ++j) if (cand[j] >= 0 && cand[j] <= 16) t.p1.push_back(cand[j]); }
+      out.push_back(t); }
+    { StoreSpec t; t.name = tag + "x1 -> [-6.5,1]*x0 + [-1,1], x0 in [0,16] @edges"; t.vfmt = v; t.asym = 2;
+      long double xs[] = { 0, 0.5L, 1.25L, 3, 8, 10.5L, 16, ld_round(8 / 6.5L, v) };
+      for (int a = 0; a < (v == F_INTEL ? 7 : 8); ++a) { long double x = xs[a];   // (6.5*x must be exact in long double)
+        long double ys[] = { -6.5L * x - 1, x + 1, -6.5L * x, 0, ld_next(ld_round(-6.5L * x - 1, v), v, true), ld_next(ld_round(x + 1, v), v, false) };
+        for (int b = 0; b < 6; ++b) if (representable(ys[b], v) && ys[b] >= -6.5L * x - 1 && ys[b] <= x + 1) t.pairs.push_back(std::make_pair(x, ys[b])); }
+      long double a[] = { 0, 16 }; t.p0.assign(a, a + 2); long double b[] = { -105, 17 }; t.p1.assign(b, b + 2);
+      out.push_back(t); }
+  }
+  for (size_t k = 0; k < out.size(); ++k) {
+    keep_repr(out[k].p0, v); keep_repr(out[k].p1, v);
+    if (out[k].pairs.empty()) for (size_t a = 0; a < out[k].p0.size(); ++a) for (size_t b = 0; b < out[k].p1.size(); ++b) out[k].pairs.push_back(std::make_pair(out[k].p0[a], out[k].p1[b]));
+  }
   return out;
 }
 
@@ -214,7 +247,7 @@ template <typename A> struct HW {
     bool get_integer_expr_value(const PPL::Concrete_Expression<PPL::C_Expr>&, FPI&) const { return false; }
     bool get_associated_dimensions(const PPL::Approximable_Reference<PPL::C_Expr>& expr, std::set<PPL::dimension_type>& result) const { result = expr.dimensions; return true; }
   };
-  struct Store { StoreSpec spec; Oracle oracle; };
+  struct Store { StoreSpec spec; Oracle oracle; LStore lf; };
 
   int saved_round;
   // the menu of one analysed format: stores + trees
@@ -232,6 +265,11 @@ template <typename A> struct HW {
   Store* mk_store(const StoreSpec& sp) {
     Store* s = new Store; s->spec = sp;
     s->oracle.box.set_interval(PPL::Variable(0), hull_itv(sp.p0)); s->oracle.box.set_interval(PPL::Variable(1), hull_itv(sp.p1));
+    if (sp.asym == 2) {
+      A cl = (A)-6.5, ch = (A)1, dl = (A)-1, dh = (A)1; FPI c, d;
+      c.build(PPL::i_constraint(PPL::GREATER_OR_EQUAL, cl), PPL::i_constraint(PPL::LESS_OR_EQUAL, ch)); d.build(PPL::i_constraint(PPL::GREATER_OR_EQUAL, dl), PPL::i_constraint(PPL::LESS_OR_EQUAL, dh));
+      LF f(PPL::Variable(0)); f *= c; f += d; s->lf[1] = f;
+    }
     return s;
   }
   // all trees over format f of depth <= 1, a family of depth 2 trees, and (for concrete f) mixed trees (f)(a op_g b)
@@ -315,7 +353,7 @@ template <typename A> struct HW {
       for (size_t j = 0; j < m.jobs.size(); ++j) {
         const Node* t = m.jobs[j].first; Store& st = *m.stores[m.jobs[j].second];
         LF result;
-        bool ok = PPL::linearize(*t->ce, st.oracle, LStore(), result);
+        bool ok = PPL::linearize(*t->ce, st.oracle, st.lf, result);
         if (fegetround() != saved_round) { mach_error("rounding mode changed by linearize"); fesetround(saved_round); }
         if (!last) continue;
         vf::count(CNT_LIN); vf::count(vf::CNT_TRANS); if (!ok) vf::count(CNT_LIN_FALSE);
@@ -337,8 +375,8 @@ template <typename A> struct HW {
         RI coef[3];
         if (!read_form(result, coef)) { viol(site, "invariant", in.done(), "NaN coefficient", "well-formed linear form", "ill-formed result"); continue; }
         bool bad = false;
-        for (size_t a = 0; a < st.spec.p0.size() && !bad; ++a) for (size_t b = 0; b < st.spec.p1.size() && !bad; ++b) {
-          long double v[2] = { st.spec.p0[a], st.spec.p1[b] };
+        for (size_t pi = 0; pi < st.spec.pairs.size() && !bad; ++pi) {
+          long double v[2] = { st.spec.pairs[pi].first, st.spec.pairs[pi].second };
           RI E; bool have = false;
           for (int md = 0; md < 4 && !bad; ++md) {
             fesetround(FE_MODES[md]); feclearexcept(FE_ALL_EXCEPT);
